@@ -213,6 +213,16 @@ def streams(rng, tier):
         for c in rng.sample(cand, min(len(cand), 400 if not thorough else 4000)):
             assigned.append(dict(c, via="assign_none"))
     out.append(("assigned-none", assigned))
+    # ... and on vectors that LOST their None: built holding one, the None then overwritten in place (v[i] = x), or left
+    # behind by a slice - the dtype legitimately stays nullable although no element is None any more; dropna / fillna
+    # still answer with vectors that report themselves non-nullable
+    lost = []
+    for name, cases in out[:-1]:
+        cand = [c for c in cases if "via" not in c and c.get("op") in ("red", "na", "cmp") and (c.get("a") or [])
+                and not any(t[0] == "N" for t in c["a"])]
+        for c in rng.sample(cand, min(len(cand), 300 if not thorough else 3000)):
+            lost.append(dict(c, via=rng.choice(["none_overwritten", "none_sliced_off"])))
+    out.append(("lost-none", lost))
     lived = []
     for name, cases in out:
         cand = [c for c in cases if len(c.get("a") or []) >= 2 and "via" not in c]
@@ -277,6 +287,18 @@ def _bools(r):
 def _mk(case, a):
     """the case's left operand; via = "assign_none": built WITHOUT its None values (an object-dtype stand-in of the
     same kind of data: another element of the vector), then the None are assigned in place"""
+    if case.get("via") in ("none_overwritten", "none_sliced_off") and a and all(x is not None for x in a):
+        try:
+            if case["via"] == "none_overwritten":
+                i = len(a) // 2
+                v = c05._mkvec_fresh([None if j == i else x for j, x in enumerate(a)], None)
+                v[i] = a[i]
+            else:
+                v = c05._mkvec_fresh([None] + list(a), None)[1:]
+            if [type(x) for x in v._underlying] == [type(x) for x in a] and list(v._underlying) == list(a):
+                return v
+        except Exception:                                    # noqa: BLE001
+            pass
     if case.get("via") == "assign_none":
         stand = next(x for x in a if x is not None)
         v = c05._mkvec_fresh([stand if x is None else x for x in a], None)
